@@ -178,6 +178,16 @@ def cases_for(tier: str):
                         nd = (length + 1) // 2
                         cases.append({'kind': kind, 'cycles': c, 'desc': ['layout', name, start, length, 1],
                                       'data': ('01' * nd)[:nd]})
+    # composite descriptions: every single excluded gate (and two pairs) of the chains with 2 and 3 ancillas
+    for length in ((5, 7, 9) if thorough else (5, 7)):
+        nd = (length + 1) // 2
+        excl = [[i] for i in range(length - 1)] + [[0, length - 2], [1, 2]]
+        for ex in excl:
+            for c in ((1, 2, 3, 4) if thorough else (1, 2, 4)):
+                kinds = ('full', 'simplified') if (thorough or (ex[0] + c) % 2 == 0) else ('full',)
+                for kind in kinds:
+                    cases.append({'kind': kind, 'cycles': c, 'desc': ['composite', ['chain', length, 1], ex],
+                                  'data': ('01' * nd)[:nd]})
     for t in ('QUBIT', 'QUTRIT', 'QUQUAD'):
         for n in ((1, 2, 3, 5, 9) if thorough else (1, 3, 5)):
             cases.append({'kind': 'calib', 'type': t, 'n': n})
@@ -187,6 +197,18 @@ def cases_for(tier: str):
             nd = record.n_data(desc)
             cases.append({'kind': 'multi', 'rounds': rounds, 'desc': desc, 'data': ('10' * nd)[:nd]})
     return cases
+
+
+def expected_error(case):
+    """the malformed inputs of the generator and what the code answers to them (documented behaviour, measured on the
+    pinned tree): a chain of even length has no description (IndexError), a single data qubit has no simplified circuit.
+    Every other input is valid: a description or constructor that raises there is a broken correspondence."""
+    d = case.get('desc')
+    if d and d[0] == 'chain' and d[1] % 2 == 0:
+        return 'description:IndexError'
+    if d and d[0] == 'chain' and d[1] == 1 and case['kind'] == 'simplified':
+        return 'constructor-raises:NoReferenceOperationException'
+    return None
 
 
 def is_nontrivial(case, g) -> bool:
@@ -314,7 +336,8 @@ def run(tier: str, seed: int) -> int:
     for r in results:
         if 'error' in r:
             errs[r['error']] += 1
-            if r['error'].startswith(('unsupported', 'nondyadic')) and r['error'] not in reported:
+            if (r['error'].startswith(('unsupported', 'nondyadic')) or r['error'] != expected_error(r['case'])) \
+                    and r['error'] not in reported:
                 reported.add(r['error'])
                 oc.violation({'property': PROP, 'kind': 'correspondence-broken', 'unchecked': r['error'],
                               'case': r['case'], 'g': r['g']}, found_input=False)
